@@ -5,7 +5,7 @@ package main
 // is driven through the REAL transform (and redactEmail / redactEmail1 / redactFindEmailBoundary) at the
 // lengths where an implementation would plausibly put a limit: 1..300 with 63/64/65/66 (RFC 5321 local
 // part, RFC 1035 label), 127/128/129, 253..257 (RFC 1035 name, one byte), 300, and in smaller numbers
-// 511..513, 1023..1025 (4095..4097 thorough).  Same case kinds (0 value, 1 sequence, 2 boundary), same
+// 512, 1025 (511..513, 1023..1025, 2048 thorough).  Same case kinds (0 value, 1 sequence, 2 boundary), same
 // canonical output and the same independent oracle (c14Oracle: address-survives / redacted-non-address ...).
 
 import (
@@ -17,7 +17,7 @@ import (
 func c14Lengths(g *Gen) []int {
 	ls := []int{1, 2, 3, 7, 8, 9, 15, 16, 17, 31, 32, 33, 62, 63, 64, 65, 66, 67, 100, 127, 128, 129, 200, 253, 254, 255, 256, 257, 300}
 	if g.Thorough() {
-		ls = append(ls, 511, 512, 513, 1023, 1024, 1025, 4095, 4096, 4097)
+		ls = append(ls, 511, 512, 513, 1023, 1024, 1025, 2048) // the extracted model scans with nth_error: cost n^2 per case
 	} else {
 		ls = append(ls, 512, 1025)
 	}
